@@ -408,29 +408,15 @@ func checkRoundTrip(c Case) error {
 		demObs[i].ID = id
 	}
 	perm2 := lcgPerm(len(demerged), r2.PermSeed)
-	used := false
-	mk2 := func() []*obiseq.BioSequence {
-		seqs := make([]*obiseq.BioSequence, len(perm2))
-		for i, j := range perm2 {
-			if used {
-				seqs[i] = demerged[j].Copy()
-			} else {
-				seqs[i] = demerged[j]
-			}
-		}
-		used = true
-		return seqs
-	}
-	_ = mk2
 	// copies are taken for every attempt: merging mutates its input
-	mk3 := func() []*obiseq.BioSequence {
+	mk2 := func() []*obiseq.BioSequence {
 		seqs := make([]*obiseq.BioSequence, len(perm2))
 		for i, j := range perm2 {
 			seqs[i] = demerged[j].Copy()
 		}
 		return seqs
 	}
-	second, err := uniqRetry(mk3, r2, cat, mrg, c.NA, false)
+	second, err := uniqRetry(mk2, r2, cat, mrg, c.NA, false)
 	what2 := fmt.Sprintf("second uniq -m %s %v after `uniq -m %s %v | demerge -d %s` (categories %q, NA %q)", k, r2, k, r1, k, cat, c.NA)
 	if err != nil {
 		return fmt.Errorf("%s: %v", what2, err)
